@@ -56,6 +56,9 @@ def runGrey (rest : String) : String :=
 
 def runLine (line : String) : String :=
   if line.isEmpty then "" else
+  -- a leading `~`: the executor runs the line under a digit-grouping global locale; the library must not notice
+  let line := if line.front = '~' then (line.drop 1).toString else line
+  if line.isEmpty then "" else
   let kind := line.front
   let rest := (line.drop 1).toString
   match kind with
